@@ -23,7 +23,7 @@ from dsim.core import s2b
 from dsim.streams import SimFile
 
 STATUSES = [100, 101, 200, 200, 201, 204, 206, 301, 302, 304, 400, 404, 500, 599]
-VALUES_OK = ["v", "text/plain", "a; b=c", "caf\xe9", "", "1", "x y"]
+VALUES_OK = ["v", "text/plain", "a; b=c", "caf\xe9", "", "1", "x y", 7, 0]
 VALUES_BAD = ["a\r\nX-Injected: 1", "a\nb", "\r", "evil\r\n\r\n<html>", "x\n"]
 KEYS = ["X-A", "x-a", "X-B", "Content-Type", "Set-Cookie", "Cache-Control", "Vary"]
 LOCATIONS = ["/next", "rel/path?x=1", "http://example.com/a", "http://☃.net/p\xe5th?q=\xe8", "/caf\xe9", "//other.example/x", "?only=query", "",
@@ -244,12 +244,13 @@ class WsgiOutput(Scenario):
             if not (isinstance(m, list) and len(m) == 5):
                 continue
             op, key, v1, v2, idx = m
-            key, v1, v2 = str(key) or "X-A", str(v1), str(v2)
+            # (values may be given as int: every mutator has to store a native string)
+            key, v1, v2 = str(key) or "X-A", v1 if type(v1) is int else str(v1), v2 if type(v2) is int else str(v2)
             idx = idx if isinstance(idx, int) else 0
             h = resp.headers
-            bad = any(c in v for v in (v1, v2) for c in "\r\n")
+            bad = False
             uses_v2 = op in ("setlist", "extend_list", "update_list", "setlistdefault", "setitem_slice", "add_kw", "set_kw")
-            bad = any(c in v1 for c in "\r\n") or (uses_v2 and any(c in v2 for c in "\r\n"))
+            bad = any(c in str(v1) for c in "\r\n") or (uses_v2 and any(c in str(v2) for c in "\r\n"))
             before = list(h)
             try:
                 if op == "add":
@@ -282,9 +283,9 @@ class WsgiOutput(Scenario):
                 elif op == "setitem_slice":
                     h[idx % (len(h) + 1) : (idx % (len(h) + 1)) + 1] = [(key, v1), (key, v2)]
                 elif op == "add_kw":
-                    h.add(key, v1, filename=v2)
+                    h.add(key, str(v1), filename=str(v2))  # (the option syntax is defined for text values)
                 elif op == "set_kw":
-                    h.set(key, v1, charset=v2)
+                    h.set(key, str(v1), charset=str(v2))
                 elif op == "remove":
                     h.remove(key)
                     bad = False
